@@ -178,9 +178,24 @@ func run(c Case, o *lib.Obs) error {
 			}
 		}
 	}
+	// what subinclude() needs: if the subincluded file is itself built (DefsChain), every package other
+	// than "defs"/"slow" needs //defs:defs and its dependencies built before it can even be parsed
+	needsDefs := false
+	if st.DefsChain {
+		for l := range closure {
+			if t := st.Target(l); t != nil && t.Pkg != "defs" && t.Pkg != "slow" {
+				needsDefs = true
+			}
+		}
+	}
 	if c.Query {
-		// only what subinclude() needs may (and must) be built
-		closure = st.TransitiveDeps([]string{"//defs:defs"})
+		// nothing is requested to be built: only what subinclude() needs may (and must) be built
+		closure = map[string]bool{}
+	}
+	if needsDefs {
+		for l := range st.TransitiveDeps([]string{"//defs:defs"}) {
+			closure[l] = true
+		}
 	}
 	for _, w := range c.Workers {
 		os.RemoveAll(filepath.Join(e.W, "plz-out"))
